@@ -2175,6 +2175,40 @@ func (p *Prog) applyRenames(baseline map[string]bool) []string {
 		p.Funcs[m.key] = f
 		out = append(out, m.key+" -> "+match[0].key)
 	}
+	// third pass - a function that moved onto another type and changed its parameter list on the way keeps, as a rule,
+	// its name: the only new function of the package with the name of the only missing one of that name
+	baseName := func(key string) string {
+		if i := strings.LastIndex(key, "."); i >= 0 {
+			return key[i+1:]
+		}
+		return key
+	}
+	for _, m := range missing {
+		if _, has := p.Funcs[m.key]; has {
+			continue
+		}
+		var match []cand
+		for _, a := range added {
+			if !taken[a.key] && baseName(a.key) == baseName(m.key) && pkgOf(a.key) == pkgOf(m.key) && p.Funcs[a.key] != nil {
+				match = append(match, a)
+			}
+		}
+		rivals := 0
+		for _, m2 := range missing {
+			if _, has := p.Funcs[m2.key]; !has && baseName(m2.key) == baseName(m.key) && pkgOf(m2.key) == pkgOf(m.key) {
+				rivals++
+			}
+		}
+		if len(match) != 1 || rivals != 1 {
+			continue
+		}
+		taken[match[0].key] = true
+		f := p.Funcs[match[0].key]
+		delete(p.Funcs, match[0].key)
+		f.Key = m.key
+		p.Funcs[m.key] = f
+		out = append(out, m.key+" -> "+match[0].key)
+	}
 	sort.Strings(out)
 	return out
 }
